@@ -252,3 +252,36 @@ def guard_atoms(fn, pos):
         else:
             atoms.append(('other', c.get('txt', ''), pol, c))
     return atoms
+
+
+def enumerate_paths(fn, start, goals, avoid=(), limit=4000):
+    """Acyclic paths start -> any goal that never enter a position in `avoid`.
+    Each path is the list of branch decisions [(cond node, polarity)] taken at two-way conditional blocks."""
+    succ, entry, exit_ = fn.graph()
+    goals = set(goals)
+    avoid = set(avoid)
+    blocks = fn.blocks
+    out = []
+
+    def rec(p, seen, decisions):
+        if len(out) >= limit:
+            return
+        if p in goals:
+            out.append(list(decisions))
+            return
+        if p in avoid or p in seen:
+            return
+        seen = seen | {p}
+        b = blocks.get(p[0])
+        nxt = succ.get(p, [])
+        if b is not None and p[1] == len(b['el']) and 'termcond' in b and len(b['succ']) == 2 and b.get('termk') != 'CXXTryStmt':
+            c = fn.stmts.get(b['termcond'])
+            for pol, s in ((True, b['succ'][0]), (False, b['succ'][1])):
+                if s is None:
+                    continue
+                rec((s, 0), seen, decisions + [(c, pol)] if c is not None else decisions)
+            return
+        for q in nxt:
+            rec(q, seen, decisions)
+    rec(start, frozenset(), [])
+    return out
